@@ -30,7 +30,7 @@
 (*    expectations.  TLC checks both laws for every shape and candidate     *)
 (*    value of the cfgs and ExpectLaw in every reachable state, for all     *)
 (*    k + c in 1..3 that keep the model below 2^30.  vh-hdr replays the     *)
-(*    same behaviours at (k, c) up to max * 2^(k+c) <= 2^62 and judges them *)
+(*    same behaviours at (k, c) up to max * 2^(k+c) < 2^61 and judges them  *)
 (*    with TransExpect.                                                     *)
 (***************************************************************************)
 EXTENDS Integers, Sequences, FiniteSets, TLC, Json
